@@ -71,6 +71,9 @@ partial def pItem : P Item := fun cs =>
   | 'm' :: '[' :: r => do let (xs, r) ← pPairs r []; some (.mapI xs, r)
   | 'G' :: '(' :: r => do let (n, r) ← pNum r; let (_, r) ← pChar ',' r; let (x, r) ← pItem r; let (_, r) ← pChar ')' r; some (.tag n x, r)
   | 'c' :: '!' :: '(' :: r => do let (v, r) ← pNum r; let (_, r) ← pChar ')' r; some (.simple v, r)
+  | 'h' :: '!' :: '!' :: '(' :: r => do let (v, r) ← pNum r; let (_, r) ← pChar ')' r; some (.half v, r)
+  | 's' :: '!' :: '!' :: '(' :: r => do let (v, r) ← pNum r; let (_, r) ← pChar ')' r; some (.single v, r)
+  | 'd' :: '!' :: '!' :: '(' :: r => do let (v, r) ← pNum r; let (_, r) ← pChar ')' r; some (.double v, r)
   | 'h' :: '!' :: '(' :: r => do let (v, r) ← pNum r; let (_, r) ← pChar ')' r; some (.half v, r)
   | 's' :: '!' :: '(' :: r => do let (v, r) ← pNum r; let (_, r) ← pChar ')' r; some (.single v, r)
   | 'd' :: '!' :: '(' :: r => do let (v, r) ← pNum r; let (_, r) ← pChar ')' r; some (.double v, r)
